@@ -28,7 +28,14 @@ BOUNDED = {
     "plugin_dbm": ("watchtower-plugin/src/dbm.rs", "replay_tests/bounded_plugin_dbm.rs", "watchtower-plugin/src/dbm.rs", "watchtower-plugin", "verif_bounded_dbm",
                    ["C05", "C18"],
                    "real client DBM (SQLite in memory) vs the stub contracts: towers {t1,t2}, locators {l1,l2}, expiries {e1<e2}; every sequence of <= 4 "
-                   "operations starting with a registration, and every sequence of 3 operations after both towers are registered (87 880 sequences)"),
+                   "operations starting with a registration, and every sequence of 3 operations after both towers are registered (87 880 sequences)",
+                   ["wt_client", "retrier", "plugin_main"]),
+    "tower_dbm": ("teos/src/dbm.rs", "replay_tests/bounded_tower_dbm.rs", "teos/src/dbm.rs", "teos", "verif_bounded_dbm",
+                  ["C01", "C04", "C07", "C08", "C09", "C11"],
+                  "real tower DBM (SQLite in memory) vs the stub contracts: users {u1,u2}, appointments a1=(l1,u1) a2=(l1,u2) a3=(l2,u1) in two versions, tracker "
+                  "statuses ConfirmedIn/InMempoolSince/IrrevocablyResolved; every sequence of <= 3 operations on the empty database and every sequence of 3 "
+                  "operations after both users and a1, a2 are stored (159 014 sequences)",
+                  ["gatekeeper", "responder", "watcher", "api"]),
 }
 _done = {}
 
@@ -80,7 +87,7 @@ def bounded(name):
     """run a bounded stand-in; returns dict(kind = 'state' | 'result' | None, input, outcome, bound, cmd, sequences)"""
     if ("bounded", name) in _done:
         return _done[("bounded", name)]
-    src, module, target_file, package, flt, props, bound = BOUNDED[name]
+    src, module, target_file, package, flt, props, bound, _units = BOUNDED[name]
     scratch = tempfile.mkdtemp(prefix="verif_bounded_")
     try:
         subprocess.run(["rsync", "-a", "--exclude", "target", "--exclude", ".git", REPO.rstrip("/") + "/", scratch + "/"], check=True)
